@@ -27,6 +27,7 @@ canary "dial completed during cancellation" C10
 canary "negotiated hold time of zero" C06
 canary "wait for the keepalive manager goroutine" C10
 canary "do not read peer.fsms from FSM goroutines" C10
+canary "refuse a second Serve while the server is already serving" C20
 fi
 for d in /verif/seeded/*/; do
   id=$(basename $d); p=$(python3 -c "import json;print(json.load(open('$d/meta.json'))['breaks_property'])")
